@@ -72,6 +72,11 @@ def overload_sets(tier):
     two = [s for s in sigs if len(s[0]) == 2]
     sets = list(itertools.permutations(one, 2)) + list(itertools.permutations(two, 2))
     sets += [(a, b) for a in one[:4] for b in two[:6]] + [(b, a) for a in one[:4] for b in two[:6]]
+    # mixed triples: one two-parameter overload (not applicable to a one-argument call) before, between and after two one-parameter overloads
+    nb, na = (2, 3) if tier == "quick" else (4, 5)
+    for b in two[:nb]:
+        for a1, a2 in itertools.permutations(one[:na], 2):
+            sets += [(b, a1, a2), (a1, b, a2), (a1, a2, b)]
     if tier == "thorough":
         sets += list(itertools.permutations(one, 3))
         sets += list(itertools.permutations([s for s in two if not s[1]][:6], 3))
@@ -115,7 +120,7 @@ def calls_for(ovset):
 
 def bounds(tier):
     sets = overload_sets(tier)
-    return {"overload_sets": len(sets), "set_size": "2" if tier == "quick" else "2-3", "argument_types": len(arg_types())}
+    return {"overload_sets": len(sets), "set_size": "2 (+ mixed-arity triples)" if tier == "quick" else "2-3", "argument_types": len(arg_types())}
 
 
 CH = 12
